@@ -173,13 +173,17 @@ static void registry_vs_ledger(const char* when) {
 /* in a third of the cases the probe destructors allocate: one object that is dropped and one that is deleted by
    hand at once -- insertions (growth) and removals in the registry while a sweep is finalising its list */
 static int destructors_allocate;
+static int harness_stopped;          /* the harness's own stop window (the destructor goes by what the program did, not by what the collector says) */
 static void on_destruct(var obj, int64_t id) {
   (void)id;
   rs_dead(obj);
-  if (destructors_allocate && in_collection && gc->running) {
-    var kept = new(Int, $I(id)); rs_add(kept, 0, 0); kept = NULL;
+  if (destructors_allocate && !harness_stopped && (struct GC*)current(GC) == gc) {          /* (not while a worker's collector is torn down: gc is the main thread's again by then) */
+    /* (during a forced or threshold collection, and during an explicit del alike) */
+    var kept = new(Int, $I(id)); rs_add(kept, 0, 0);
+    if (check_c17) { vh_eval(); if (!mem(gc, kept)) { vh_violation(K("registry:object-allocated-by-a-destructor-not-registered"), "an object allocated by a destructor (%s) is not in the registry", in_collection ? "during a forced collection" : "during an explicit deletion or a threshold collection"); } }
+    kept = NULL;
     var temp = new(Int, $I(-id)); rs_add(temp, 0, 0); rs_dead(temp); del(temp);
-    vh_count("allocations_made_by_destructors_during_a_sweep");
+    vh_count(in_collection ? "allocations_made_by_destructors_during_a_sweep" : "allocations_made_by_destructors_outside_forced_collections");
   }
   if (check_c17 && in_collection) {
     /* removals while a sweep is in progress: the registry must be consistent right now */
@@ -698,9 +702,9 @@ static void op_explicit_delete(vh_rng* r) {
     if (boxed_target >= 0) { rs_dead(N[boxed_target].ptr); }
     /* a quarter of the deletions happen inside a stop..start window: the object must leave the registry all the same */
     int stopped = vh_chance(r, 25);
-    if (stopped) { stop(gc); }
+    if (stopped) { stop(gc); harness_stopped = 1; }
     del(p);
-    if (stopped) { start(gc); vh_count("explicit_deletions_while_stopped"); }
+    if (stopped) { start(gc); harness_stopped = 0; vh_count("explicit_deletions_while_stopped"); }
     vh_op(stopped ? "stop; del(n%d); start" : "del(n%d)", x);
     vh_count("explicit_deletions");
     if (check_c17) {
